@@ -357,3 +357,32 @@ Definition decode_selector (t : cbor) : dres bytes :=
   | CTag _ _ => DUnmodelled
   | _ => DErr
   end.
+
+(** fxamacker leniencies that make a token with a WRONG wire type decode:
+    an array of small integers where a byte string is expected, and a
+    simple value where an integer is expected (known findings K1 / K3) *)
+Definition lenient_scalar (k : fkind) (v : cbor) : bool :=
+  match k, v with
+  | TBytes, CArray _ => true
+  | TInt _, CSimple n | TUintK _, CSimple n => negb ((n =? 20) || (n =? 21) || (n =? 22) || (n =? 23))
+  | _, _ => false
+  end.
+
+Definition lenient_pairs (tags : list field_tag) (inner : field_tag -> cbor -> bool) (kvs : list (cbor * cbor)) : bool :=
+  existsb (fun kv => match classify_key (fst kv) with
+                     | KInt z => match find_field tags z with
+                                 | Some f => lenient_scalar (kind_of_type (f_type f)) (snd kv) || inner f (snd kv)
+                                 | None => false
+                                 end
+                     | _ => false
+                     end) kvs.
+
+Definition lenient_claim (swtags : list field_tag) (f : field_tag) (v : cbor) : bool :=
+  match kind_of_type (f_type f), v with
+  | TSwcs, CArray l => existsb (fun e => match e with CMap m => lenient_pairs swtags (fun _ _ => false) m | _ => false end) l
+  | TNonce, CArray l => existsb (fun e => match e with CArray _ => true | _ => false end) l
+  | _, _ => false
+  end.
+
+Definition lenient_token (tags swtags : list field_tag) (t : cbor) : bool :=
+  match t with CMap kvs => lenient_pairs tags (lenient_claim swtags) kvs | _ => false end.
